@@ -29,13 +29,14 @@ Inductive heap_op :=
 Inductive ppq_op :=
 | QPush (prio part : N) | QDelete (prio part : N) | QPop (o : option (N * N)) | QPeek (o : option N) | QEmpty (o : bool).
 Inductive zip_op :=
-| ZPut (k v : bytes) (rank : N) (o : option bytes) | ZGet (k : bytes) (o : option bytes)
+| ZPut (k v : bytes) (rank : N) (o : option bytes) | ZGet (k : bytes) (o : option (bytes * bytes))   (* key and value of the returned node *)
 | ZAscend (p : bytes) (o : list (bytes * bytes)) | ZAscendN (p : bytes) (n : N) (o : list (bytes * bytes)).
 Inductive cache_op :=
 | KPush (v : bytes) (o_size : N) | KPop (o : option bytes) (o_size : N) | KPopLast (o : option bytes) (o_size : N)
 | KPeek (o : option bytes) | KDelete (k : bytes) (o_size : N) | KEmpty (o : bool).
 Inductive set_op :=
 | SAdd (vs : list bytes) | SAdded (vs : list bytes) (o_old : list bytes) | SWithout (vs : list bytes) (o_old : list bytes)
+| SNil (o_size o_count : N)   (* Size() and All() on a nil *Set *)
 | SHas (v : bytes) (o : bool) | SSize (o : N) | SSlice (o o_all : list bytes) | SDiff (vs : list bytes) (o : list bytes).
 Inductive smap_op :=
 | MSet (k : bytes) (v : N) (o_new : bool) | MDelete (k : bytes) (o : bool) | MGet (k : bytes) (o : option N)
@@ -50,8 +51,8 @@ Inductive case :=
 | CCache (probe : N) (ops : list cache_op)
 | CSet (ops : list set_op)
 | CSMap (ops : list smap_op)
-| CMerge (its : list (list (bytes * N * N))) (o : list (bytes * N * N))
-| CMergeSorted (its : list (list (N * N))) (o : list (N * N)).
+| CMerge (lim : N) (its : list (list (bytes * N * N))) (o : list (bytes * N * N))   (* lim > 0: the consumer stops after lim items *)
+| CMergeSorted (lim : N) (its : list (list (N * N))) (o : list (N * N)).
 
 (* ---------- search ---------- *)
 Definition search_check {E T} (cmp : E -> T -> comparison) (xs : list E) (t : T) (o_idx : N) (o_ok : bool) : list N :=
@@ -152,7 +153,10 @@ Fixpoint zip_run (ops : list zip_op) (t : tree) (ref : list (bytes * bytes)) : l
       | ZPut k v rank o =>
           let '(t', old) := put k v rank t in
           chk (opt_eqb bytes_eqb old o) 4 ++ chk (opt_eqb bytes_eqb (al_get k ref) o) 14 ++ zip_run r t' (al_put k v ref)
-      | ZGet k o => chk (opt_eqb bytes_eqb (get k t) o) 4 ++ chk (opt_eqb bytes_eqb (al_get k ref) o) 14 ++ zip_run r t ref
+      | ZGet k o =>
+          chk (opt_eqb bytes_eqb (get k t) (option_map snd o)) 4 ++
+          chk (opt_eqb bytes_eqb (al_get k ref) (option_map snd o) && match o with Some kv => bytes_eqb (fst kv) k | None => true end) 14 ++
+          zip_run r t ref
       | ZAscend p o => chk (kvs_eqb (ascend_prefix p t) o) 4 ++ chk (kvs_eqb (pfilter p ref) o) 14 ++ zip_run r t ref
       | ZAscendN p n o => chk (kvs_eqb (firstn (N.to_nat n) (ascend_prefix p t)) o) 4 ++
                           chk (kvs_eqb (firstn (N.to_nat n) (pfilter p ref)) o) 14 ++ zip_run r t ref
@@ -195,6 +199,7 @@ Fixpoint set_run (ops : list set_op) (s : set) (ref : list bytes) : list N :=
       | SAdd vs => set_run r (set_add vs s) (ref_add ref vs)
       | SAdded vs old => chk (bl_eqb (set_slice s) old) 6 ++ chk (bl_eqb ref old) 16 ++ set_run r (set_add vs s) (ref_add ref vs)
       | SWithout vs old => chk (bl_eqb (set_slice s) old) 6 ++ chk (bl_eqb ref old) 16 ++ set_run r (set_without vs s) (ref_without ref vs)
+      | SNil osz ocnt => chk ((osz =? 0) && (ocnt =? 0)) 16 ++ set_run r s ref
       | SHas v o => chk (Bool.eqb o (set_has v s)) 6 ++ chk (Bool.eqb o (mem v ref)) 16 ++ set_run r s ref
       | SSize o => chk (o =? N.of_nat (set_size s)) 6 ++ chk (o =? N.of_nat (length ref)) 16 ++ set_run r s ref
       | SSlice o oall => chk (bl_eqb (set_slice s) o && bl_eqb (set_slice s) oall) 6 ++ chk (bl_eqb ref o && bl_eqb ref oall) 16 ++ set_run r s ref
@@ -242,9 +247,10 @@ Fixpoint ref_merge_ins (x : mitem) (m : list mitem) : list mitem :=
                end
   end.
 Definition ref_merge (its : list (list mitem)) : list mitem := fold_left (fun m x => ref_merge_ins x m) (concat its) [].
-Definition merge_check (its : list (list mitem)) (o : list mitem) : list N :=
-  chk (match merge mcmp keep_newest mitem_eqb its with Some l => list_eqb mitem_eqb l o | None => false end) 8 ++
-  chk (list_eqb mitem_eqb (ref_merge its) o) 18.
+Definition limited {A} (lim : N) (l : list A) : list A := if lim =? 0 then l else firstn (N.to_nat lim) l.
+Definition merge_check (lim : N) (its : list (list mitem)) (o : list mitem) : list N :=
+  chk (match merge mcmp keep_newest mitem_eqb its with Some l => list_eqb mitem_eqb (limited lim l) o | None => false end) 8 ++
+  chk (list_eqb mitem_eqb (limited lim (ref_merge its)) o) 18.
 
 Definition scmp (a b : N * N) := fst a ?= fst b.
 Fixpoint sorted_fst (l : list (N * N)) : bool :=
@@ -256,9 +262,13 @@ Fixpoint nn_ins (x : N * N) (l : list (N * N)) : list (N * N) :=
   | y :: l' => if (fst x <? fst y) || ((fst x =? fst y) && (snd x <=? snd y)) then x :: l else y :: nn_ins x l'
   end.
 Definition nn_sort (l : list (N * N)) := fold_right nn_ins [] l.
-Definition merge_sorted_check (its : list (list (N * N))) (o : list (N * N)) : list N :=
-  chk (list_eqb N.eqb (map fst (merge_sorted scmp its)) (map fst o)) 9 ++
-  chk (sorted_fst o && list_eqb nn_eqb (nn_sort o) (nn_sort (concat its))) 19.
+(* a drained sequence is a sorted permutation of the inputs; a sequence the consumer stopped early is the prefix of that
+   length of the sorted keys, made of input elements *)
+Definition merge_sorted_check (lim : N) (its : list (list (N * N))) (o : list (N * N)) : list N :=
+  chk (list_eqb N.eqb (limited lim (map fst (merge_sorted scmp its))) (map fst o)) 9 ++
+  chk (if lim =? 0 then sorted_fst o && list_eqb nn_eqb (nn_sort o) (nn_sort (concat its))
+       else list_eqb N.eqb (map fst o) (firstn (N.to_nat lim) (map fst (nn_sort (concat its)))) &&
+            forallb (fun x => existsb (nn_eqb x) (concat its)) o) 19.
 
 Definition check_case (c : case) : list N :=
   match c with
@@ -270,8 +280,8 @@ Definition check_case (c : case) : list N :=
   | CCache probe ops => cache_run probe ops (cache_new 0) []
   | CSet ops => set_run ops set_empty []
   | CSMap ops => smap_run ops smap_empty []
-  | CMerge its o => merge_check its o
-  | CMergeSorted its o => merge_sorted_check its o
+  | CMerge lim its o => merge_check lim its o
+  | CMergeSorted lim its o => merge_sorted_check lim its o
   end.
 
 Definition run (cases : list (N * case)) : list (N * N) :=
